@@ -513,8 +513,9 @@ impl Store {
         batch.remove(&self.idx_topic, topic_key);
         batch.remove(&self.idx_context, idx_context_key_from_frame(&frame));
 
-        // If this is a context frame, remove it from the contexts set
-        if frame.topic == "xs.context" {
+        // If this is a context frame, remove it from the contexts set (the zero context is
+        // not registered by a frame and always exists, whatever id an imported frame carries)
+        if frame.topic == "xs.context" && frame.id != ZERO_CONTEXT {
             self.contexts.write().unwrap().remove(&frame.id);
         }
 
